@@ -23,7 +23,8 @@ RULES = {
     'C25/notify-once': 'listeners see strictly alternating down/up per host, at most one add and one remove per membership',
     'C25/up-after-reconnect': 'a successful reconnection probe is followed by the host being marked up and one up notification '
                               '(unless opening the pools then failed, which restarts reconnection)',
-    'C25/pools': 'after the last fault healed, within the liveness window every host marked up and not ignored has a live pool in every session',
+    'C25/pools': 'after the last fault healed, within the liveness window every host marked up and not ignored has a live pool in every session; '
+                 'and at every "up" notification every running session has an open pool for that host unless a concurrent down/removal took it away',
 }
 WORLD_INFO = {'real': ['Cluster.on_up/on_down/on_add/on_remove/_start_reconnector/signal_connection_failure/_cleanup_failed_on_up_handling',
                        'Session.on_up/on_down/add_or_renew_pool/update_created_pools, Host, _HostReconnectionHandler, _Scheduler',
@@ -205,6 +206,42 @@ def run_plan(plan, seed, choices=None):
         finally:
             remove_spans.append((str(host.endpoint.address), s0, sim.nlog))
     set_knob(w.ccl.Cluster, 'on_remove', on_remove_span)
+    pool_removals = []     # (seq, id(session), host address, name of the calling function)
+    orig_remove_pool = w.ccl.Session.remove_pool
+
+    @functools.wraps(orig_remove_pool)
+    def remove_pool_logged(self_, host):
+        import sys as _sys
+        pool_removals.append((sim.nlog, id(self_), str(host.endpoint.address), _sys._getframe(1).f_code.co_name))
+        return orig_remove_pool(self_, host)
+    set_knob(w.ccl.Session, 'remove_pool', remove_pool_logged)
+    up_entries = []        # (seq, host address) of every Cluster.on_up call
+    orig_on_up = w.ccl.Cluster.on_up
+
+    @functools.wraps(orig_on_up)
+    def on_up_logged(self_, host):
+        up_entries.append((sim.nlog, str(host.endpoint.address)))
+        return orig_on_up(self_, host)
+    set_knob(w.ccl.Cluster, 'on_up', on_up_logged)
+    up_without_pool = []   # (seq, host address, session index): at an "up" notification a running session had no pool for the host
+
+    class PoolsAtUp(w.cpol.HostStateListener):
+        def on_up(self, host):
+            for si, s_ in enumerate(st['sessions']):
+                if s_.is_shutdown:
+                    continue
+                p_ = s_._pools.get(host)
+                if p_ is None or p_.is_shutdown:
+                    up_without_pool.append((sim.nlog, str(host.endpoint.address), si, id(s_)))
+
+        def on_down(self, host):
+            pass
+
+        def on_add(self, host):
+            pass
+
+        def on_remove(self, host):
+            pass
     if plan.get('line_p') or plan.get('points') or plan.get('focus_stall'):
         C = w.ccl.Cluster
         sim.enable_line_preemption([C.on_up, C.on_down, C._start_reconnector, C.on_remove, C._on_up_future_completed,
@@ -302,6 +339,7 @@ def run_plan(plan, seed, choices=None):
             st['connect_error'] = repr(e)
             return
         w.session = st['sessions'][0]
+        cluster.register_listener(PoolsAtUp())
         st['t0'] = sim.vnow()
         if plan.get('slow_connect'):
             w.net.slow[fc.nodes[plan['slow_connect']['node']].addr] = plan['slow_connect']['mult']
@@ -506,6 +544,18 @@ def run_plan(plan, seed, choices=None):
             elif h.is_up is False:
                 V.add('C25/pools', 'host-still-down-after-heal', 'host %s is still marked down %.0f s after every node was restarted (reconnect delay %.1f)'
                       % (addr, 20.0, plan['reconnect_delay']))
+    # ---- marked up only with pools everywhere
+    for (seq, addr, si, sid) in up_without_pool:
+        V.check('C25/pools')
+        entry = max([e[0] for e in up_entries if e[1] == addr and e[0] < seq] or [0])
+        # a pool taken away again by a concurrent down / removal / failed-up cleanup between the start of this up handling and the
+        # notification is not "marked up without a pool" (Cluster.on_up itself removes the old pools first: that call is not counted)
+        others = [r for r in pool_removals if r[1] == sid and r[2] == addr and entry < r[0] < seq and r[3] != 'on_up' and r[3] != 'on_up_logged']
+        if not others:
+            V.add('C25/pools', 'marked-up-while-a-session-has-no-pool',
+                  'listeners were told that host %s is up (seq %d) while running session %d had no open pool for it and nothing had removed one since '
+                  'the up handling began (seq %d)' % (addr, seq, si, entry))
+            break
     # ---- up after reconnect
     for addr, evs in by_host.items():
         for (seq, t, h, a, kind, extra) in evs:
